@@ -81,7 +81,7 @@ def x_quorum_go():
     m = re.search(r'func CalculateQuorum\((\w+) int\) int \{\s*return (.+?)\s*\}', src, re.S)
     if not m:
         raise Broken("CalculateQuorum: single-return shape not found")
-    e = parse_expr(m.group(2))
+    e = parse_expr(re.sub(r'//[^\n]*|/\*.*?\*/', '', m.group(2)))
     # Go int division truncates toward zero
     return "Definition go_quorum (n : Z) : Z := %s.\n" % gallina(e, "Z.quot", {m.group(1): "n"}), {"expr": m.group(2)}
 
@@ -90,7 +90,7 @@ def x_quorum_sol():
     m = re.search(r'function quorum\(uint (\w+)\)[^{]*\{\s*return (.+?);\s*\}', src, re.S)
     if not m:
         raise Broken("Messages.sol quorum(): single-return shape not found")
-    e = parse_expr(m.group(2))
+    e = parse_expr(re.sub(r'//[^\n]*|/\*.*?\*/', '', m.group(2)))
     # the comparison in verifyVM
     m2 = re.search(r'if\s*\(\s*vm\.signatures\.length\s*(<|<=)\s*quorum\(guardianSet\.keys\.length\)\s*\)\s*\{\s*return \(false', src)
     if not m2:
@@ -107,8 +107,9 @@ def x_quorum_ral():
     m = re.search(r'let quorumSize = (.+)', src)
     if not m:
         raise Broken("governance.ral: `let quorumSize = ...` not found")
-    e = parse_expr(m.group(1).strip())
-    vs = set(re.findall(r'[A-Za-z_]\w*', m.group(1)))
+    formula = re.sub(r'//.*$', '', m.group(1)).strip()
+    e = parse_expr(formula)
+    vs = set(re.findall(r'[A-Za-z_]\w*', formula))
     if len(vs) != 1:
         raise Broken("governance.ral quorumSize: expected exactly one variable, got %s" % sorted(vs))
     m2 = re.search(r'assert!\(quorumSize (<=|<|>=|>) signatureSize', src)
@@ -118,7 +119,7 @@ def x_quorum_ral():
     out = "Definition ral_quorum (n : Z) : Z := %s.\n" % gallina(e, "Z.div", {vs.pop(): "n"})
     out += "(* governance.ral: assert!(quorumSize %s signatureSize, ..) *)\n" % m2.group(1)
     out += "Definition ral_quorum_accepts (q k : Z) : bool := %s.\n" % acc
-    return out, {"expr": m.group(1).strip(), "assert": m2.group(1)}
+    return out, {"expr": formula, "assert": m2.group(1)}
 
 TARGETS = {}   # extractor name -> (file stem, header or None); default: Extracted
 
